@@ -76,6 +76,12 @@ func TestC08HTTP(t *testing.T) {
 		func(s *HistorySummary) bool { return s.Reverts >= 1 && s.MetaOps >= 1 && s.Commits >= 3 })
 }
 
+func TestC07HTTP(t *testing.T) {
+	runFocusedHTTP(t, "C07", "around every request that is refused (insufficient funds, reference conflict, unknown / already reverted transaction, missing metadata, script failure) or asks for a dry run - `dryRun` on the v2 routes, `preview` on the v1 routes, in every spelling the routes accept (true, 1, yes, in any case) - the raw content of every table of the stand-in is compared before / after and must be identical; non-trivial = >= 2 refused requests, >= 1 dry run and >= 2 commits; distinct = by operation history",
+		HistOpts{Features: GenFeatures, Steps: 24, Scripts: true, Reverts: true, Metadata: true, NoTrace: true, Reads: false, FinalReads: true, Bulks: true}, 100, 300,
+		func(s *HistorySummary) bool { return s.Failures >= 2 && s.DryRuns >= 1 && s.Commits >= 2 })
+}
+
 func TestC01HTTP(t *testing.T) {
 	runFocusedHTTP(t, "C01", "per asset, the balances of every balance-bearing read (volumes now / PIT / window, aggregated balances) sum to zero and equal the fold; non-trivial = >= 1 multi-touch or self-posting transaction and >= 1 revert; distinct = by operation history",
 		HistOpts{Features: GenFeatures, Steps: 20, Scripts: true, Reverts: true, Reads: true, FinalReads: true, PITReads: true, MaxPostings: 5}, 100, 300,
@@ -119,7 +125,7 @@ func TestC20HTTP(t *testing.T) {
 }
 
 func TestC21HTTP(t *testing.T) {
-	st := stats.New("C21", "exploration", viaHTTP+"paginated walks (5 resources incl. grouped volumes, page size 1-4, both orders through the sort parameter, optional filter body and pit): the first page by explicit parameters, every other page by the cursor the API returned, next to the end and previous back; non-trivial = walk of >= 3 pages; distinct = by walk + history", assumePgsim)
+	st := stats.New("C21", "exploration", viaHTTP+"paginated walks (5 resources incl. grouped volumes, page size 1-4, both orders through the sort parameter, optional filter body and pit): the first page by explicit parameters, every other page by the cursor the API returned, next to the end and previous back; then walks of 8 listings (v2 accounts, volumes, grouped volumes, transactions, logs; v1 accounts, transactions, balances) whose pageSize parameter changes from page to page next to the cursor: the concatenation must equal one page of 1000; non-trivial = walk of >= 3 pages; distinct = by walk + history", assumePgsim)
 	defer st.Write(t)
 	n := stats.N(80, 250)
 	st.Set("requested_checks_via_http", n)
@@ -133,6 +139,13 @@ func TestC21HTTP(t *testing.T) {
 		for i := 0; i < 3; i++ {
 			if w.windowedVolumesWalk(rt, l) {
 				st.Class("windowed-volumes-walk")
+			}
+		}
+		for i := 0; i < 4; i++ {
+			name, pages := w.variablePageWalk(rt, l)
+			st.Class("page-size-changes-along-the-walk:" + name)
+			if pages >= 3 {
+				st.Class("page-size-changes-along-the-walk:>=3-pages")
 			}
 		}
 		st.Add("api_calls", w.APICalls)
